@@ -53,6 +53,7 @@ func runC10(r *engine.Run) {
 	freshResolved(r, "FRESH-resolved")
 	refFieldBuf(r, "REF-fieldbuf", funcsOfPkg(r, pkgWMPT))
 	domReject(r, "DOM-reject")
+	rejectKind(r, "DOM-reject")
 }
 
 func orderRecompute(r *engine.Run, f *ssa.Function) {
